@@ -9,7 +9,7 @@
     linearisation events: [EIns t m k now] = thread t's call for message m with key k was
     answered "new" and recorded k at clock [now]; [EDup] = answered "duplicate";
     [ESweep c T clk ks] = cleaner c, at clock clk, ran cleanOut(T) and deleted exactly ks. *)
-From WM Require Import Base.Prelude Dedup.Model Dedup.MonProofs Dedup.Proofs Dedup.ApiProofs.
+From WM Require Import Base.Prelude Dedup.Model Dedup.MonProofs Dedup.Proofs Dedup.ApiProofs Dedup.Timed Dedup.TimedProofs Dedup.Clients Dedup.ClientsProofs.
 Local Open Scope Z_scope.
 
 (** The lookup and the insert of different goroutines never interleave: at most one thread is
@@ -117,6 +117,84 @@ Theorem C14_expired_key_reaccepted_partial : forall (w t0 : Z) roles sched pre t
 Proof. exact expired_key_reaccepted. Qed.
 Print Assumptions C14_expired_key_reaccepted_partial.
 
+(** ** Accepted again after it expired, with a bound — the closed system with a timely clean-up
+
+    [trun w p d c (tinit t0 roles) sched] runs the same system with ONE designated cleaner [c]
+    driven by a ticker of period p (the code: window / 2) under a fair-enough environment
+    (Dedup/Timed.v): ticks received by c are at least p apart and never from the future; the
+    clock may not pass last_tick + p + d while c waits for its tick, nor T + 2d while c is
+    between receiving tick T and its Unlock (d = scheduling latency of the cleaner's cycle,
+    which includes that no client sits on the mutex for longer).  Every list of labels is again
+    a schedule (labels the timely system refuses are skipped), any clients, any other cleaners. *)
+
+(** The timely system only removes schedules: its states are states of [run]. *)
+Theorem C14_timely_refines : forall (w p d : Z) (c : tid) (t0 : Z) roles sched,
+  exists sched', base (trun w p d c (tinit t0 roles) sched) = run w (init t0 roles) sched'.
+Proof. exact timely_refines. Qed.
+Print Assumptions C14_timely_refines.
+
+(** Nothing is remembered longer than p + 3d past its expiry (insertion + w + p + 3d). *)
+Theorem C14_bounded_retention : forall (w p d : Z) (c : tid) (t0 : Z),
+  0 <= w -> 0 <= d <= p -> forall roles sched, roles c = RCleaner ->
+  forall k e, alookup k (tags (base (trun w p d c (tinit t0 roles) sched))) = Some e ->
+  clock (base (trun w p d c (tinit t0 roles) sched)) <= e + p + 3 * d.
+Proof. exact bounded_retention. Qed.
+Print Assumptions C14_bounded_retention.
+
+(** Every trace of the timely system is accepted by the timed-set specification AND fresh:
+    every "duplicate" is answered at most p + 3d after the expiry of the entry it hit
+    ([tmon_ok] — the check evaluates the same function on the stamped log with its own slack). *)
+Theorem C14_timely_trace_fresh : forall (w p d : Z) (c : tid) (t0 : Z),
+  0 <= w -> 0 <= d <= p -> forall roles sched, roles c = RCleaner ->
+  tmon_ok w (p + 3 * d) t0 (rev (trace (base (trun w p d c (tinit t0 roles) sched)))) = true.
+Proof. exact timely_trace_fresh. Qed.
+Print Assumptions C14_timely_trace_fresh.
+
+(** Accepted again after it expired: a call with key k more than w + p + 3d after the LAST
+    insertion of k is answered "new" — no premise about sweeps any more. *)
+Theorem C14_expired_key_reaccepted : forall (w p d : Z) (c : tid) (t0 : Z),
+  0 <= w -> 0 <= d <= p -> forall roles sched, roles c = RCleaner ->
+  forall pre t m k tins mid e rest,
+  rev (trace (base (trun w p d c (tinit t0 roles) sched))) = pre ++ EIns t m k tins :: mid ++ e :: rest ->
+  forallb (fun y => negb (inserts k y)) mid = true ->
+  calls_key k e = true -> tins + w + p + 3 * d < ev_time e ->
+  is_dup e = false.
+Proof. exact expired_key_reaccepted_timely. Qed.
+Print Assumptions C14_expired_key_reaccepted.
+
+(** With the code's period p <= w/2 and a latency d <= w/6: any call later than two windows
+    after the last insertion of its key is answered "new".  (d = 0 gives the documented "up to
+    50% longer": 1.5 windows; the harness verdict C14/expired-key-never-reaccepted allows 8
+    windows, i.e. a latency of more than two windows.) *)
+Theorem C14_reaccepted_within_two_windows : forall w p d c t0 roles sched pre t m k tins mid e rest,
+  0 <= w -> 0 <= d <= p -> 2 * p <= w -> 6 * d <= w -> roles c = RCleaner ->
+  rev (trace (base (trun w p d c (tinit t0 roles) sched))) = pre ++ EIns t m k tins :: mid ++ e :: rest ->
+  forallb (fun y => negb (inserts k y)) mid = true ->
+  calls_key k e = true -> tins + 2 * w < ev_time e ->
+  is_dup e = false.
+Proof. exact reaccepted_within_two_windows. Qed.
+Print Assumptions C14_reaccepted_within_two_windows.
+
+(** Towards time-lock freedom of the timely system (the urgency assumptions can always be met,
+    by thread steps, which take no time and which [tstep] never refuses): whoever holds the
+    mutex releases it within three of its own steps; with the mutex free a cleaner that has its
+    tick completes its cycle.  (What is not proved: the composition into "from every reachable
+    state"; it needs the invariant owner = Some t -> holds t, the converse of the one in [Inv].) *)
+Theorem C14_holder_releases : forall (w : Z) (s : state) (t : tid),
+  holds (thr s t) = true ->
+  exists n s', (n <= 3)%nat /\ replay w s (repeat (LThr t) n) = Some s' /\ owner s' = None
+               /\ clock s' = clock s.
+Proof. exact holder_releases. Qed.
+Print Assumptions C14_holder_releases.
+
+Theorem C14_cleaner_cycle_possible : forall (w : Z) (s : state) (c : tid) (T : Z),
+  thr s c = TCleaner (CTicked T) -> owner s = None ->
+  exists s', replay w s [LThr c; LThr c; LThr c] = Some s'
+             /\ thr s' c = TCleaner CWait /\ owner s' = None /\ clock s' = clock s
+             /\ forall k e, alookup k (tags s') = Some e -> T <= e.
+Proof. exact cleaner_cycle_possible. Qed.
+Print Assumptions C14_cleaner_cycle_possible.
+
 (** A sweep is complete: while the cleaner still holds the lock after cleanOut(T), no
     remembered key has an expiry before T. *)
 Theorem C14_sweep_is_complete : forall (w t0 : Z) roles sched t T,
@@ -138,6 +216,44 @@ Print Assumptions C14_results_are_trace_calls.
 Theorem C14_handler_iff_new : forall k dup, mw_handler (mw_run (IKey k) (rres_of dup)) = negb dup.
 Proof. exact mw_handler_iff_new. Qed.
 Print Assumptions C14_handler_iff_new.
+
+(** ** Middleware calls and decorator batches as client programs of the concurrent system
+    (Dedup/Clients.v): a goroutine's operations [ops] compile to the program of IsDuplicate
+    calls it makes; [delivered] computes through [mw_run] / [dec_run] which messages reach the
+    handler / the inner publisher from the answers. *)
+
+(** A thread's program is conserved by every schedule: done ++ in flight ++ to do. *)
+Theorem C14_program_conserved : forall (w t0 : Z) roles sched t prog,
+  roles t = RClient prog ->
+  prog_of (thr (run w (init t0 roles) sched) t) = prog.
+Proof. exact program_conserved. Qed.
+Print Assumptions C14_program_conserved.
+
+(** Sequentially: the delivered messages are exactly those whose call was answered "new". *)
+Theorem C14_delivered_news : forall ops ans,
+  length ans = length (compile true ops) ->
+  delivered true ops ans = news (combine (compile true ops) ans).
+Proof. exact delivered_news. Qed.
+Print Assumptions C14_delivered_news.
+
+(** In the concurrent system — any window, population, schedule: when a goroutine running
+    [ops] (middleware calls and decorator batches, hasher failures included) has finished, the
+    messages its handler / inner publisher were given are exactly, in order, the messages of
+    its linearisation events "new" ([EIns t m _ _]); with [C14_one_per_epoch]: per key and
+    epoch exactly one message of ALL goroutines reaches a handler or publisher. *)
+Theorem C14_delivered_iff_new : forall (w t0 : Z) roles sched t ops res,
+  roles t = RClient (compile true ops) ->
+  thr (run w (init t0 roles) sched) t = TClient [] PIdle res ->
+  delivered true ops (rev (map snd res)) = ins_msgs t (rev (trace (run w (init t0 roles) sched))).
+Proof. exact delivered_iff_new. Qed.
+Print Assumptions C14_delivered_iff_new.
+
+(** Before the repair of the decorator this fails: a recorded message is not delivered. *)
+Theorem C14_delivered_iff_new_refuted_before_fix :
+  exists ops ans, length ans = length (compile false ops)
+                  /\ delivered false ops ans <> news (combine (compile false ops) ans).
+Proof. exact delivered_before_fix_refuted. Qed.
+Print Assumptions C14_delivered_iff_new_refuted_before_fix.
 
 (** Middleware: a duplicate is dropped as a success — (nil, nil) — and that is the only way to
     get (nil, nil) from the middleware itself; the handler is not invoked. *)
@@ -280,4 +396,22 @@ Example C14_api_rejects :
   /\ api_ok 10 [AC 5 0 1 false; AC 5 4 12 false] = true
   /\ api_ok 10 [AC 5 0 1 false; AC 6 0 1 true] = false
   /\ api_ok 10 [AC 5 3 4 true; AC 5 0 9 false] = true.
+Proof. vm_compute. repeat split. Qed.
+
+(** The timely system is not vacuous (no time-lock): window 12, period 6, latency 2.  Key 5 is
+    inserted at 0 (expiry 12); a [LAdv 100] past the deadline 0 + 6 + 2 is refused; ticks at 6
+    and 12 sweep nothing (the call at 12 is a duplicate); the tick at 18 deletes the key and the
+    call at 19 is answered "new". *)
+Definition tdemo_roles (t : tid) : role :=
+  match t with 0%nat => RClient [(100, 5); (101, 5); (102, 5)]%N | 1%nat => RCleaner | _ => RClient [] end.
+Definition tdemo_sched : list label :=
+  [LThr 0; LThr 0; LThr 0; LThr 0; LAdv 100; LAdv 6; LTick 1 6; LThr 1; LThr 1; LThr 1;
+   LAdv 12; LTick 1 12; LThr 1; LThr 1; LThr 1; LThr 0; LThr 0; LThr 0;
+   LAdv 18; LTick 1 18; LThr 1; LThr 1; LThr 1; LAdv 19; LThr 0; LThr 0; LThr 0; LThr 0]%nat.
+Example C14_timely_demo :
+  let ts := trun 12 6 2 1%nat (tinit 0 tdemo_roles) tdemo_sched in
+  rev (trace (base ts)) = [eins 0 100 5 0; esweep 1 6 6 []; esweep 1 12 12 []; edup 0 101 5 12;
+                           esweep 1 18 18 [5]%nat; eins 0 102 5 19]
+  /\ clock (base ts) = 19 /\ last_tick ts = 18 /\ swept_to ts = 18
+  /\ tmon_ok 12 (6 + 3 * 2) 0 (rev (trace (base ts))) = true.
 Proof. vm_compute. repeat split. Qed.
